@@ -41,6 +41,8 @@ def tobool(v):
         return OR(*[AND(c, tobool(x)) for c, x in v.alts])
     if v is None:
         return FALSE
+    if hasattr(v, "truth"):
+        return v.truth()
     if isinstance(v, (int, str, list, tuple, dict, set)):
         return z3.BoolVal(bool(v))
     raise PyUnsupported(f"truthiness of {type(v).__name__}")
@@ -171,6 +173,13 @@ class Closure:
         self.node, self.env = node, env
 
 
+class DefClosure:
+    """a nested `def`: executed in the enclosing environment when called (late binding, as Python does)"""
+
+    def __init__(self, node):
+        self.node = node
+
+
 class Exec:
     def __init__(self, fn, while_bound=8, builtins=None):
         src = textwrap.dedent(inspect.getsource(fn))
@@ -213,8 +222,8 @@ class Exec:
     def block(self, stmts, g):
         for s in stmts:
             gl = self.live(g)
-            if z3.is_false(gl):
-                return
+            if z3.is_false(gl) or (getattr(self, "skip_dead", False) and z3.is_false(z3.simplify(gl))):
+                return          # dead code: nothing below is executed on any path (simplifier check: opt-in)
             self.stmt(s, gl)
 
     def assign(self, target, val, g):
@@ -298,6 +307,12 @@ class Exec:
             return
         if isinstance(s, ast.Try):
             return self.try_(s, g)
+        if isinstance(s, ast.FunctionDef):
+            a = s.args
+            if s.decorator_list or a.vararg or a.kwarg or a.kwonlyargs or a.defaults:
+                raise PyUnsupported("nested def with decorators / star / default arguments")
+            self.env[s.name] = DefClosure(s)
+            return
         raise PyUnsupported("statement " + type(s).__name__)
 
     def try_(self, s, g):
@@ -563,9 +578,27 @@ class Exec:
         kw = {k.arg: self.ev(k.value, g) for k in e.keywords}
         if isinstance(f, tuple) and f[0] == "builtin":
             return self.builtin(f[1], args, kw, g)
+        if isinstance(f, DefClosure):
+            return self.apply_def(f, args, kw, g)
         if callable(f):
             return f(self, args, kw, g)
         raise PyUnsupported("call of " + str(f))
+
+    def apply_def(self, clo, args, kw, g):
+        """call of a nested def: its body runs under guard g with its own return flag; names it binds
+        stay local (saved and restored), names it reads come from the enclosing environment"""
+        names = [x.arg for x in clo.node.args.args]
+        if kw or len(args) != len(names):
+            raise PyUnsupported("nested def: keyword / missing arguments")
+        saved_env, saved_ret, saved_val, saved_loops = self.env, self.ret, self.retval, self.loops
+        self.env = dict(saved_env)
+        for n, v in zip(names, args):
+            self.env[n] = v
+        self.ret, self.retval, self.loops = FALSE, UNDEF, []
+        self.block(clo.node.body, g)
+        r = None if self.retval is UNDEF else self.retval
+        self.env, self.ret, self.retval, self.loops = saved_env, saved_ret, saved_val, saved_loops
+        return r
 
     def apply_closure(self, clo, args, g):
         saved = self.env
